@@ -256,7 +256,7 @@ pub fn judge_set(ctx: &mut Ctx, s: &MSym, origin: &str) {
 pub fn run(cfg: &Cfg) -> Report {
     let mut report = Report::new(cfg);
     let seed = cfg.seed;
-    let nmax = cfg.tier.pick(7, 9);
+    let nmax = cfg.tier.pick(8, 9);
     let mut sets: Vec<(MSym, String)> = gen::connected_sets_upto(2, nmax).into_iter().map(|s| (s, "brute-force representative".to_string())).collect();
     // the same sets as the D-set generator numbers them, and renumbered copies
     let gen_sets: Vec<MSym> = observe(|| rust_dsymbols::generators::dset_generators::DSets::new(2, nmax.min(6)).map(|s| from_dset(&s)).collect::<Vec<_>>()).unwrap_or_default();
